@@ -49,7 +49,7 @@ Definition run_module (j : json) : json :=
   | Some wj, Some ep, Some bufs, Some bis, Some fuel =>
     match nums wj, named_values bufs, named_values bis with
     | Some ws, Some bvals, Some ivals =>
-      match run_words (Z.to_nat fuel) ws ep bvals ivals with
+      match run_words (Z.to_nat (Z.max 0 (Z.min fuel 100000000))) ws ep bvals ivals with
       | Done out => JObj [("ok", JBool true); ("buffers", JObj (map (fun kv => (fst kv, json_of_value (snd kv))) out))]
       | OutOfFuel => err "outoffuel" ""
       | Fail msg => fail_json msg
